@@ -3,8 +3,11 @@ import Bng.Map
   Model of pkg/pppoe/teardown.go (SessionTeardown) together with the parts of SessionManager and IPPool
   it touches.  A session OBJECT (what a Go caller holds a pointer to) is identified by `name`; it may be
   terminated again after it has left the session table ("ending a session twice").
-  RADIUS accounting is a counter of Accounting-Stop records per session, the eBPF-map callback a counter
-  of removals, PADT a counter of frames.  Core Lean only.
+  RADIUS accounting is a counter of Accounting-Stop records per session, PADT a counter of frames.
+  The eBPF-map callback (`updateEBPFMaps(session, true)`) can FAIL (`fault ebpf on|off|once`): a successful call removes
+  the session's fast-path entry (`fp`) and is counted in `ebpf`, a failed one is counted in `efail` and leaves the
+  entry; cleanup goes on either way ("Continue cleanup even if eBPF update fails") and, the session being marked
+  torn down BEFORE the call, nothing ever calls the callback for that session again.  Core Lean only.
 -/
 namespace Bng.Teardown
 open Bng
@@ -19,6 +22,13 @@ structure Obj where
   claimed : Bool      -- Session.terminating: a TerminateSession call has taken the session on (fix 58cbf8f)
   deriving Repr, DecidableEq
 
+/-- what the eBPF-map callback does when it is called next -/
+inductive Fault where
+  | off      -- it removes the entry
+  | on       -- it fails, every time
+  | once     -- it fails the next time it is called, then works again
+  deriving Repr, DecidableEq
+
 structure TD where
   radius : Bool
   objs : AMap Nat Obj        -- by harness name
@@ -30,6 +40,9 @@ structure TD where
   ebpf : AMap Nat Nat
   padt : AMap Nat Nat
   parked : AMap Nat Nat      -- TerminateSession calls held inside their PADT callback: tag → name
+  fault : Fault := .off      -- the eBPF-map callback's next answer
+  efail : AMap Nat Nat := [] -- calls of the eBPF-map callback that returned an error, per session
+  fp : List Nat := []        -- names whose fast-path (eBPF map) entry is present
   deriving Repr
 
 def init (radius : Bool) : TD :=
@@ -53,7 +66,8 @@ def mk (s : TD) (name mac : Nat) (authed hasIp : Bool) : TD × Nat :=
   let o : Obj := { id := id, mac := mac, user := mac, authed := authed, hasIp := hasIp, tornDown := false, claimed := false }
   ({ s with objs := AMap.insert s.objs name o, live := AMap.insert s.live id name,
             byMac := AMap.insert s.byMac mac id, nextID := id + 1,
-            held := if hasIp then name :: s.held else s.held }, id)
+            held := if hasIp then name :: s.held else s.held,
+            fp := name :: s.fp }, id)
 
 /-- SessionManager.RemoveSession -/
 def removeSession (s : TD) (id : Nat) : TD :=
@@ -66,7 +80,13 @@ def removeSession (s : TD) (id : Nat) : TD :=
     { s with byMac := if AMap.lookup s.byMac mac = some id then AMap.erase s.byMac mac else s.byMac,
              live := AMap.erase s.live id }
 
-/-- SessionTeardown.cleanup -/
+/-- the callback's answer after it was called once -/
+def Fault.next : Fault → Fault
+  | .on => .on
+  | _ => .off
+
+/-- SessionTeardown.cleanup: tornDown is set first; then the eBPF-map callback (its failure is logged and the cleanup
+    goes on), Accounting-Stop, pool release, RemoveSession -/
 def cleanup (s : TD) (name : Nat) : TD :=
   match AMap.lookup s.objs name with
   | none => s
@@ -74,7 +94,10 @@ def cleanup (s : TD) (name : Nat) : TD :=
     if o.tornDown then s
     else
       let s1 := { s with objs := AMap.insert s.objs name { o with tornDown := true },
-                         ebpf := bump s.ebpf name,
+                         ebpf := if s.fault == .off then bump s.ebpf name else s.ebpf,
+                         efail := if s.fault == .off then s.efail else bump s.efail name,
+                         fp := if s.fault == .off then s.fp.filter (fun n => !(n == name)) else s.fp,
+                         fault := s.fault.next,
                          stops := if s.radius && o.authed then bump s.stops name else s.stops,
                          held := if o.hasIp then s.held.filter (fun n => !(n == name)) else s.held }
       removeSession s1 o.id
@@ -101,6 +124,7 @@ inductive Op where
   | authFail (name : Nat)          -- what the server does on a rejected PAP: Authenticated := false, state Closed
   | tpark (tag name : Nat)         -- a TerminateSession call run up to (and held inside) its PADT callback
   | tresume (tag : Nat)            -- the held call goes on: cleanup
+  | fault (m : Fault)              -- what the eBPF-map callback answers from now on
   deriving Repr, DecidableEq
 
 def step (s : TD) : Op → TD
@@ -144,6 +168,7 @@ def step (s : TD) : Op → TD
     match AMap.lookup s.parked tag with
     | some n => cleanup { s with parked := AMap.erase s.parked tag } n
     | none => s
+  | .fault m => { s with fault := m }
 
 def run (s : TD) (ops : List Op) : TD := ops.foldl step s
 
